@@ -3,6 +3,7 @@ package rules
 import (
 	"fmt"
 	"go/types"
+	"sort"
 	"strings"
 
 	"golang.org/x/tools/go/ssa"
@@ -32,6 +33,7 @@ func runC09(p *core.Prog, r *core.Report, tier string) {
 		checkBidStrategy(p, r, ds, rel)
 	}
 	checkRelayBidCache(p, r, ds)
+	checkBuilderConfigEntries(p, r, ds)
 }
 
 // isBigCmp: d is (*big.Int).Cmp(x, y) or (*uint256.Int).Cmp(x, y)
@@ -643,6 +645,66 @@ func checkBidStrategy(p *core.Prog, r *core.Report, ds *core.Describer, rel stri
 	if n == 0 {
 		r.Hold("C09.h", tag+"|no-use-after-failed-call", "", "no result of a failed call is used")
 	}
+}
+
+// checkBuilderConfigEntries: C09.m — the score modifiers of one builder come from that builder's entry only: where the
+// builder configurations are read entry by entry, what is put into a BuilderConfig does not depend on a variable that
+// is carried over from the previous entry (declared outside the loop and not reset in it).
+func checkBuilderConfigEntries(p *core.Prog, r *core.Report, ds *core.Describer) {
+	n := 0
+	for _, f := range p.SrcFuncs() {
+		rel := core.RelPkg(f.Pkg.Pkg.Path())
+		if rel != "" && rel != "." {
+			continue
+		}
+		lits := core.StructLits(f, "blockrelay.BuilderConfig")
+		if len(lits) == 0 {
+			continue
+		}
+		loops := naturalLoops(f)
+		for k, sl := range lits {
+			// the loops the literal sits in
+			var around []*ssa.BasicBlock
+			for h, body := range loops {
+				if body[sl.Alloc.Block()] {
+					around = append(around, h)
+				}
+			}
+			if len(around) == 0 {
+				continue
+			}
+			var flds []string
+			for name := range sl.Fields {
+				flds = append(flds, name)
+			}
+			sort.Strings(flds)
+			for _, name := range flds {
+				n++
+				carried := ""
+				seen := map[ssa.Value]bool{}
+				var walk func(v ssa.Value)
+				walk = func(v ssa.Value) {
+					phi, ok := v.(*ssa.Phi)
+					if !ok || seen[v] {
+						return
+					}
+					seen[v] = true
+					for _, h := range around {
+						if phi.Block() == h && phi.Comment != "" && !strings.HasPrefix(phi.Comment, "rangeindex") {
+							carried = phi.Comment
+						}
+					}
+					for _, e := range phi.Edges {
+						walk(e)
+					}
+				}
+				walk(sl.Fields[name])
+				r.Check(carried == "", "C09.m", fmt.Sprintf("%s|builder-config#%d|%s|from-this-entry-only", core.FnKey(f), k+1, name), p.Pos(sl.Stores[name].Pos()), "the field is filled from this entry's values",
+					"the field "+name+" of a builder's configuration can carry the value of the variable "+carried+" over from the previous entry (the variable is not reset per entry): a builder whose entry does not set it inherits another builder's factor/offset and is scored with it")
+			}
+		}
+	}
+	r.Floor("C09.m builder configuration fields read entry by entry", n, 3)
 }
 
 func checkRelayBidCache(p *core.Prog, r *core.Report, ds *core.Describer) {
